@@ -160,8 +160,9 @@ struct Stats {
     labels: BTreeMap<String, u64>,
     skipped: BTreeMap<String, u64>,
     nontrivial: HashSet<u64>,
-    samples_first: Vec<Value>,
-    samples_res: Vec<Value>,
+    /// the 8 non-trivial cases with the smallest fingerprints (a deterministic choice for a given
+    /// seed, whatever the thread interleaving)
+    samples: BTreeMap<u64, Value>,
     seen_nt: u64,
     known_hits: BTreeMap<String, u64>,
 }
@@ -177,15 +178,12 @@ impl Stats {
             *self.skipped.entry(k).or_default() += v;
         }
         self.nontrivial.extend(o.nontrivial);
-        for s in o.samples_first {
-            if self.samples_first.len() < 3 {
-                self.samples_first.push(s);
-            }
+        for (k, v) in o.samples {
+            self.samples.insert(k, v);
         }
-        for s in o.samples_res {
-            if self.samples_res.len() < 5 {
-                self.samples_res.push(s);
-            }
+        while self.samples.len() > 8 {
+            let last = *self.samples.keys().next_back().unwrap();
+            self.samples.remove(&last);
         }
         self.seen_nt += o.seen_nt;
         for (k, v) in o.known_hits {
@@ -209,14 +207,14 @@ impl Stats {
             let fp = fnv64(js.as_bytes());
             if self.nontrivial.insert(fp) {
                 self.seen_nt += 1;
-                let sample = || {
+                let keep = self.samples.len() < 8 || self.samples.keys().next_back().map(|m| fp < *m).unwrap_or(true);
+                if keep {
                     let v: Value = serde_json::from_str(&js).unwrap_or(Value::Null);
-                    json!({"phase": phase, "labels": obs.labels, "case": truncate_value(v)})
-                };
-                if self.samples_first.len() < 3 {
-                    self.samples_first.push(sample());
-                } else if self.samples_res.len() < 5 && (fp % 97 == 0) {
-                    self.samples_res.push(sample());
+                    self.samples.insert(fp, json!({"phase": phase, "labels": obs.labels, "case": truncate_value(v)}));
+                    while self.samples.len() > 8 {
+                        let last = *self.samples.keys().next_back().unwrap();
+                        self.samples.remove(&last);
+                    }
                 }
             }
         }
@@ -622,8 +620,7 @@ pub fn run<P: Property>(p: &P, tier: Tier, seed: u64) -> RunResult {
         println!("KNOWN-FINDING: property={} {} [signature={} hits={}]", id, text, sig, n);
     }
 
-    let mut samples: Vec<Value> = stats.samples_first.clone();
-    samples.extend(stats.samples_res.clone());
+    let mut samples: Vec<Value> = stats.samples.values().cloned().collect();
     if samples.is_empty() {
         samples.push(json!({"note": "no non-trivial case sample recorded"}));
     }
